@@ -4,7 +4,7 @@ import tempfile
 
 from hypothesis import strategies as st
 
-from vlib.runner import Violation, derive_seed
+from vlib.runner import Violation
 from vlib.choices import Choices
 from vlib.fsguard import FsGuard, contains
 from vlib import reffmt
@@ -502,6 +502,7 @@ def _run_space(ctx, gen, maxseg):
         lay.verify()
     ctx.stats.extra['exhaustive'] = not avoid
     ctx.stats.extra['enumerated_max_segments'] = {maxseg}
+    ctx.stats.extra['avoided_shapes'] = set(avoid)
 
 
 def part_include(ctx):
@@ -541,8 +542,9 @@ def part_random(ctx):
     with Layout() as lay:
         def body(seed):
             execute(ctx, lay, decode_random(seed), avoid)
-        ctx.hyp('random', st.binary(min_size=16, max_size=16), body, max_examples=400 if ctx.quick else 6000)
+        ctx.hyp('random', st.binary(min_size=32, max_size=32), body, max_examples=400 if ctx.quick else 6000)
         lay.verify()
+    ctx.stats.extra['avoided_shapes'] = set(avoid)
 
 
 def parts(tier):
